@@ -15,7 +15,7 @@ from .syntax import quote
 
 STRS = {"plain": "abc", "spaces": "two words  here", "dquote": 'say "hi"', "squote": "it's", "backslash": "C:\\temp\\new.csv",
         "nonascii": "caf\u00e9 \"\u4e2d\u00df\" C:\\donn\u00e9es\\\u00e9t\u00e9 \U0001f600 \U0001d6fc", "delims": "a,b=(c)[d]:#e", "empty": "", "numlike": "12", "boollike": "True", "padded": " x ",
-        "newline": "two\nlines\tand a tab", "hash": "# not a comment", "trailbs": "ends with \\", "path": "out dir/file.csv", "Float": "Float",
+        "newline": "two\nlines\tand a tab", "hash": "# not a comment", "trailbs": "ends with \\", "path": "out dir/plots, north #3 (x86) [v2].csv", "Float": "Float",
         "key": 'Display: "Name", [x]'}
 NUMS = {"int": 5, "zero": 0, "negint": -7, "bigint": 2 ** 70 + 1, "dec": 2.5, "negdec": -0.25, "smallexp": 1e-05, "bigexp": 1.5e+20, "exp22": 1e22,
         "tenth": 0.1, "whole": 100.0, "tiny": 5e-324}
@@ -161,6 +161,10 @@ def check_C15(tier):
                 p2.run()
                 sr = json.dumps([(n, digest(c._result)) for n, c in p1.commands.items()], default=str) == \
                     json.dumps([(n, digest(c._result)) for n, c in p2.commands.items()], default=str)
+                if sr and p1.to_string() != text:
+                    # running a program leaves its arguments as they were written: it serialises to the same text afterwards
+                    sr = False
+                    raise ValueError("the program serialises differently after run():\n%s" % p1.to_string()[:400])
             except BaseException as e:
                 sr = False
                 why_run = "run raised %s: %s" % (type(e).__name__, str(e)[:300])
@@ -176,6 +180,11 @@ def check_C15(tier):
         text = None
         try:
             p1 = Program.from_source(src, working_dir=wd)
+            if bi == 0:
+                # ... and extended through the API afterwards (no line numbers): the order of the commands is the order in which they were added
+                first = list(p1.commands)[0]
+                p1.add_command(p1.find_command_class("Copy"), "Zlast", {"InFieldName": first})
+                p1.add_command(p1.find_command_class("Copy"), "Aafter", {"InFieldName": "Zlast"})
             text = p1.to_string()
             p2 = Program.from_source(text, working_dir=wd)
             same = json.dumps(project_program(p1), default=str) == json.dumps(project_program(p2), default=str)
